@@ -30,7 +30,7 @@ type dgID struct {
 }
 
 func (d dgID) String() string { return fmt.Sprintf("t%d/u%d/s%d/j%d", d.Tun, d.User, d.Seq, d.J) }
-func (d dgID) req() dgID     { d.J = 0; return d }
+func (d dgID) req() dgID      { d.J = 0; return d }
 
 func hdrSum(p []byte, salt uint16) uint16 {
 	var s uint32 = uint32(salt) + 0x9e37
@@ -187,9 +187,22 @@ type backend struct {
 	wg      sync.WaitGroup
 }
 
+// listenStatic binds a UDP socket on a port of the check's private static range: stale flows of other
+// programs on this host (KCP / QUIC retransmissions towards a closed ephemeral port) can never reach it.
+func listenStatic() (*net.UDPConn, error) {
+	var err error
+	for try := 0; try < 8; try++ {
+		var conn *net.UDPConn
+		conn, err = net.ListenUDP("udp", &net.UDPAddr{IP: net.IPv4(127, 0, 0, 1), Port: pa.Get()})
+		if err == nil {
+			return conn, nil
+		}
+	}
+	return nil, err
+}
+
 func startBackend(cs *caseState, tun int) (*backend, error) {
-	ua, _ := net.ResolveUDPAddr("udp", "127.0.0.1:0")
-	conn, err := net.ListenUDP("udp", ua)
+	conn, err := listenStatic()
 	if err != nil {
 		return nil, err
 	}
@@ -327,8 +340,7 @@ type user struct {
 }
 
 func startUser(cs *caseState, tun *tunnel, idx int) (*user, error) {
-	ua, _ := net.ResolveUDPAddr("udp", "127.0.0.1:0")
-	conn, err := net.ListenUDP("udp", ua)
+	conn, err := listenStatic()
 	if err != nil {
 		return nil, err
 	}
@@ -358,6 +370,12 @@ func (u *user) onReply(p []byte, from *net.UDPAddr) {
 	cs.deliverys.Add(1)
 	run.Count("user_datagrams", 1)
 	if from.Port != u.tun.Public.Port || !from.IP.Equal(u.tun.Public.IP) {
+		if _, _, ours := parseHdr(p, 'R', cs.salt); !ours {
+			// not from the tunnel and not one of this case's replies: traffic of another program on this host
+			run.Count("foreign_datagrams_ignored", 1)
+			cs.c.Ev("foreign", "user", u.Idx, "from", from.String(), "payload", clip(p))
+			return
+		}
 		cs.integrity("reply-source-not-public-endpoint", "user %d of tunnel %d received %s from %s, the public endpoint is %s", u.Idx, u.tun.Idx, clip(p), from, u.tun.Public)
 	}
 	u.mu.Lock()
@@ -440,11 +458,12 @@ func (pd *pending) take(p []byte, u *user) bool {
 
 // exSpec is one planned exchange.
 type exSpec struct {
-	L      int
-	Class  int
-	RepL   []int // reply lengths (0..2 replies)
-	RClass int
-	Delay  time.Duration
+	L       int
+	Class   int
+	RepL    []int // reply lengths (0..2 replies)
+	RClass  int
+	Delay   time.Duration
+	LossKey string // violation key if this light-load exchange loses its reply (default light-load-reply-lost)
 }
 
 // prepare registers the request and its planned replies; returns the id and payload.
@@ -588,6 +607,9 @@ func (u *user) exchange(sp exSpec, wait time.Duration, must bool) bool {
 		return false
 	}
 	key := "light-load-reply-lost"
+	if sp.LossKey != "" {
+		key = sp.LossKey
+	}
 	for _, l := range ml {
 		if overFrame(l) {
 			key = "light-load-reply-lost-over-frame-limit"
